@@ -92,7 +92,12 @@ def updates_for(rng, current, step, nsteps, directed=False):
     keys = [k for k in current if k != b"pandas"]
     upd = {}
     mode = rng.choice(["shrink", "shrink", "grow", "same", "remove", "add", "mix"])
-    if directed and step == 0 and len(keys) >= 3:
+    if directed == "big" and step < 2:
+        # a large value that is not ASCII, given as text: first added under a new key, then replaced (the serialised
+        # footer is far longer than the text has characters)
+        upd["big"] = ("\u4e00" if step == 0 else "\u4e8c") * (170000 + step)
+        return upd, "big-text"
+    if directed is True and step == 0 and len(keys) >= 3:
         # one call that removes a key, then replaces and removes keys stored after it (footer order)
         upd[keys[0]] = None
         upd[keys[1]] = b"R" * 5
@@ -192,7 +197,7 @@ def run(ctx, report):
         other0 = fmd0
         steps = 5 if ctx.quick else 10
         for step in range(steps):
-            upd, mode = updates_for(rng, model, step, steps, directed=s < 2)
+            upd, mode = updates_for(rng, model, step, steps, directed=(True if s < 2 else "big" if s == 2 else False))
             before = open(target, "rb").read()
             loc_b, flen_b, cons_b, fmd_b, _ = read_footer(target, is_meta)
             kv_before = kv_list(fmd_b)
